@@ -94,7 +94,9 @@ var awkwardLinks = []string{
 }
 var awkwardMimes = []string{"image/png", "video/mp4", "audio/ogg", "text/html", "application/x-%url", "image/svg+xml", "video/x-$(id)", "", "", "image/jpeg; charset=x",
 	"%url/png", "image/%url", "%mimetype/%subtype", "%supertype/%url", "video/%mimetype",
-	"pdf", "image/", "/png", "not a type", "application/x y"}
+	"pdf", "image/", "/png", "not a type", "application/x y",
+	// parameters, folded over lines the way a header value or a pretty-printed document may be
+	"image/png\n; charset=binary", "video/mp4;\n codecs=\"avc1\"", "audio/ogg\tcodecs=opus", "image/webp \n", "text/html\r\n;charset=utf-8", "image/\npng"}
 
 var hostileHrefs = []string{"https://media.example/%1B%5B2J", "https://media.example/a%07b%C2%9B31m", "https://media.example/%7F%08%08x", "https://media.example/q?x=%1B]0;t%07",
 	"https://media.example/%0D%0A%1Bc", "https://media.example/%c2%85%1b%5b1%3b1H"}
